@@ -282,8 +282,11 @@ class StdioClient:
                     # This avoids expensive attribute lookups for common types
 
                     if isinstance(message, str):
-                        # Raw string message (already JSON)
-                        json_str = message
+                        # Raw string message (already JSON). One message is one line:
+                        # a line break in JSON text can only be whitespace between
+                        # tokens (pretty-printed input, a trailing newline), never
+                        # part of a value, so it is folded into a space
+                        json_str = message.replace("\r", " ").replace("\n", " ").strip()
                         msg_method = None
                         msg_id = None
                     elif isinstance(message, dict):
